@@ -85,6 +85,35 @@ CHECKS['C09'] = dict(
          'category, subcategory and subcategory-winner compared with the spec.',
     note=_ENGINE_NOTE + '; literals are keyword-free so textual and structural constraint counting coincide', design='§4 C09')
 
+CHECKS['C03'] = dict(
+    technique='TLA+ spec Confine.tla (whitelist of node kinds; table of access shape x receiver class x attribute class -> permitted '
+              'outcome) checked by TLC; every state concretised with all real attribute names of the Python types involved and run '
+              'through parse_expression / evaluate_transaction / evaluate_filter under an audit hook; escape payloads and splices',
+    text='The access table is exhaustively enumerated by TLC and exhaustively concretised (every dir() name on every receiver the '
+         'language can build, every node kind); observed outcome classes must lie in the set the spec allows and every value, string, '
+         'audit event and mutation is checked directly.',
+    note='confinement is observed via sys.addaudithook events, result types, repr leaks in strings and deep equality of inputs; CPython '
+         '3.12 audit events are trusted to cover file/process/network/code-object creation',
+    design='§4 C03')
+CHECKS['C04'] = dict(
+    technique='TLA+ reference semantics Expr.tla (+Text.tla, Regex.tla): TLC checks the C04 rewriting laws (double negation, De Morgan, '
+              'commutation, chain = conjunction, short circuit, /0 %0, case-insensitivity) on every expression of the bounded universe; '
+              'each state is printed to source and evaluated by the real evaluator; recorded evaluations of repository and random '
+              'expressions are validated by Trace_Expr.tla',
+    text='An executable reference semantics of the expression language in TLA+; exhaustive at depth 1 (all environments) and depth 2 '
+         '(sampled replay), and trace validation of thousands of independently generated expressions with every value compared.',
+    note='ASCII-cased text, small rationals, the regex fragment of Regex.tla; constructs the spec does not define are counted as skipped',
+    design='§4 C04')
+CHECKS['C08'] = dict(
+    technique='TLA+ specs Expr.tla (outcome Err for ill-typed / partial expressions; MC_Expr ill-typed universe) and Engine.tla '
+              '(ErrorIsAbsence) checked by TLC and replayed; 39 failing expressions placed in every position of a rule file and '
+              'compared with the file without them on three classification paths; type-confused random expressions validated by '
+              'Trace_Expr.tla; tally up on two-source budgets',
+    text='Every way an accepted expression can fail is enumerated in the model and concretely; the real engine must complete and give '
+         'exactly the result of the file without the failing element.',
+    note='"accepted" = the loader does not reject the text; reference outcome = real run without the failing element',
+    design='§4 C08')
+
 NOT_YET = {}
 
 
